@@ -9,6 +9,7 @@ CONSTANTS
  OpMans = {"m1", "m2"}
  OpKinds <- AllKinds
  UseMutex = TRUE
+ FreshPH = TRUE
 INIT SInit
 NEXT SNext
 INVARIANTS Emit
